@@ -513,7 +513,9 @@ def r_ident(ctx, rule, ops, what):
     for p, e, loops in each_event(model, ["ws:onMessage"], ("call",)):
         if e["callee"] not in ops or not e["func"].startswith("WebSocketServer."):
             continue
-        for a in list(e["args"]) + [v for _, v in (e.get("kwargs") or ())]:
+        # positional and keyword arguments alike (the bound parameters)
+        argvals = [v for _, v in (e.get("argmap") or ())] or list(e["args"])
+        for a in argvals:
             if not is_client_value(a):
                 continue
             n += 1
